@@ -118,5 +118,6 @@ func TestProp(t *testing.T) {
 
 func TestReplay(t *testing.T) {
 	pbt.Register(run, def)
+	pbt.Register(run, defRace)
 	run.Replay(t)
 }
